@@ -217,6 +217,14 @@ func runProperty(e *sym.Engine, spec *propSpec, tier string, seed int, workers i
 		}
 	}
 	nViol := len(cases)
+	// second attempt per candidate: the same model with the user's data amplified by
+	// incompressible padding (size-dependent behaviour the string solver's small
+	// witnesses do not reach natively; see the length abstraction in term.go)
+	for i := 0; i < nViol; i++ {
+		c := sym.MakeCase(cases[i].Harness, tier, spec.ID, cands[i].v.Model)
+		sym.SetAmplify(&c)
+		cases = append(cases, c)
+	}
 	type sampleRef struct {
 		harness string
 		s       *sym.PathSample
@@ -255,6 +263,20 @@ func runProperty(e *sym.Engine, spec *propSpec, tier string, seed int, workers i
 		for i, c := range cands {
 			r := results[i]
 			confirmed := false
+			for _, attempt := range []int{i, nViol + i} {
+				ra := results[attempt]
+				hit := false
+				for _, f := range ra.Failed {
+					if f == c.v.ID || (strings.HasPrefix(f, c.v.ID+"@") && c.v.Site != "" && strings.HasPrefix(f[len(c.v.ID)+1:], strings.TrimPrefix(c.v.Site, "panic:"))) {
+						hit = true
+					}
+				}
+				if hit {
+					r = ra
+					cases[i] = cases[attempt] // the reproducing input is what is recorded
+					break
+				}
+			}
 			for _, f := range r.Failed {
 				if f == c.v.ID {
 					confirmed = true
@@ -321,7 +343,7 @@ func runProperty(e *sym.Engine, spec *propSpec, tier string, seed int, workers i
 	var sampleOut []interface{}
 	if results != nil {
 		for i, sr := range srefs {
-			r := results[nViol+i]
+			r := results[2*nViol+i]
 			if r.Invalid == "" && r.Panic == "" && strings.Join(r.Outcomes, ",") == strings.Join(sr.s.Outcomes, ",") {
 				validated++
 			} else {
